@@ -7,7 +7,6 @@ package dcons
 // ended how) and everything the consumer returns are recorded and validated by TLC against spec/FetchTrace.tla.
 
 import (
-	"sync/atomic"
 	"context"
 	"encoding/json"
 	"errors"
@@ -15,6 +14,7 @@ import (
 	"math/rand"
 	"os"
 	"sort"
+	"sync/atomic"
 	"testing"
 	"testing/synctest"
 	"time"
@@ -67,6 +67,9 @@ func gen(seed int64, tier string) Scenario {
 	abortsAt := -1
 	if r.Intn(3) == 0 {
 		abortsAt = r.Intn(n)
+		if sc.MaxPBytes == 0 && r.Intn(2) == 0 {
+			sc.MaxPBytes = 200 + r.Intn(200) // the interleaved transactions are then read in pieces (truncated responses)
+		}
 	}
 	holdAt := -1
 	if r.Intn(3) == 0 {
@@ -80,7 +83,7 @@ func gen(seed int64, tier string) Scenario {
 			t, p := tp()
 			sc.Steps = append(sc.Steps,
 				Step{Op: "endtxn", P: 1, Commit: false}, Step{Op: "endtxn", P: 2, Commit: false},
-				Step{Op: "produce", P: 1, Topic: t, Part: p, N: 2}, Step{Op: "produce", P: 2, Topic: t, Part: p, N: 2},
+				Step{Op: "produce", P: 1, Topic: t, Part: p, N: 2, Big: r.Intn(2) == 0}, Step{Op: "produce", P: 2, Topic: t, Part: p, N: 2, Big: r.Intn(2) == 0},
 				Step{Op: "endtxn", P: 1, Commit: false}, Step{Op: "produce", P: 1, Topic: t, Part: p, N: 1},
 				Step{Op: "endtxn", P: 2, Commit: false}, Step{Op: "endtxn", P: 1, Commit: false},
 				Step{Op: "produce", P: 2, Topic: t, Part: p, N: 2}, Step{Op: "endtxn", P: 2, Commit: true},
